@@ -26,6 +26,12 @@ claim("C17",
  "static analysis: regex class computed from the source constant, exact rune-set abstract interpretation of predicate syntax, SSA return-leaf and taint-flow rules",
  "DESIGN.md §3 C17")
 
+claim("C19",
+ "Static error-discipline and exit-path analysis over the whole module: every call with an error result is an obligation (dropped / swallowed `if err != nil { return nil }` / recovered-and-lost are findings); every locally created buffering writer must be flushed, with the error observed, on every non-error exit that follows a write (path search on the SSA CFG); in both RunE siblings the evaluation error must reach the returned value, completedSuccessfully must be `err == nil` of it, deferred steps may set the command error only when it is nil, main must exit non-zero under Execute() != nil; the -e test must guard the success exit and the printedMatches flag must be monotone; the siblings must call the same set-up functions; the -n route must not reach readStream/os.Stdin; decoder state written by Decode must be reset by Init. Necessary conditions: each obligation, when broken, yields exit 0 (or a wrong -e status) for some failing run.",
+ TB + " Accepted ignored-error sites are an explicit one-line-reason table in rules_c19.go.",
+ "static analysis: SSA error-result use analysis, dominator-guard recognition, CFG must-pass-through (flush pairing), sibling call-set comparison, static call-graph reachability",
+ "DESIGN.md §3 C19")
+
 na = {
  "C01": "whole-property quantifies over runtime values of all programs x documents; no structural clause with detection value beyond what C09/C11 already check (DESIGN.md §3 C01)",
 }
